@@ -335,7 +335,7 @@ def drive_filtered(run, scen, name):
 
 
 def readers_run(run, inv, tag):
-    n = (2500, 2500, 4000) if quick(run) else (60000, 40000, 60000)
+    n = (2500, 2500, 4000) if quick(run) else (200000, 120000, 200000)
     pk = accepted_inputs(run, *n)
     scen, obs, path = drive_filtered(run, vlib.with_do(pk, "read"), "read")
     bad, out = vlib.validate(path, "Trace_Read", "Trace_Read_%s.cfg" % inv, run.wd, len(obs), {tag})
@@ -644,7 +644,7 @@ def c14(run):
     alpha = [ord(c) for c in "aB_.-7"]
     zone = [1, 122, 2, 90, 122, 0]
     texts = []
-    maxlen = 4 if quick(run) else 6
+    maxlen = 4 if quick(run) else 7
     for n in range(0, maxlen + 1):
         for t in itertools.product(alpha, repeat=n):
             texts.append(list(t))
@@ -1118,7 +1118,7 @@ def apalache_inductive(module, cinit, indinit, inv):
 
 @check("C16")
 def c16(run):
-    run.assumptions += ["every interleaving TLC enumerates for 2 threads x (fail, read, fail, read) (70 schedules; thorough also 3 threads x (fail, read, read): 1680) is replayed by a coordinator that releases one thread step at a time through channels (no timing); failing calls differ per thread and per step so that descriptions are distinguishable; every schedule is also run with all threads failing in the same way (identical descriptions) and mirrored",
+    run.assumptions += ["every interleaving TLC enumerates for 2 threads x (fail, read, fail, read) (70 schedules; thorough also 3 threads x (fail, read, read): 1 680, and 3 threads x (fail, read, fail, read): 34 650) is replayed by a coordinator that releases one thread step at a time through channels (no timing); failing calls differ per thread and per step so that descriptions are distinguishable; every schedule is also run with all threads failing in the same way (identical descriptions) and mirrored",
                         "table entries are called from Rust threads through fn_table(); the slot is the library's thread-local either way"]
     res, out = run.model("MC_Slots", "MC_Slots.cfg", workers=1)
     scheds = [("2", ["F", "R", "F", "R"], json.loads(r)) for _, r in vlib.prints(out, "REPLAY")]
@@ -1126,6 +1126,9 @@ def c16(run):
     if not quick(run):
         res3, out3 = run.model("MC_Slots", "MC_Slots_3.cfg", workers=1)
         scheds += [("3", ["F", "R", "R"], json.loads(r)) for _, r in vlib.prints(out3, "REPLAY")]
+        # all 34 650 interleavings of three threads running fail, read, fail, read
+        res4, out4 = run.model("MC_Slots", "MC_Slots_3x4.cfg", workers=1, timeout=3600)
+        scheds += [("3", ["F", "R", "F", "R"], json.loads(r)) for _, r in vlib.prints(out4, "REPLAY")]
     if not quick(run):
         run.cov["apalache_inductive_invariant"] = apalache_inductive("SlotsInd", "CInit", "IndInit", "IndInv")
     reps = 3 if quick(run) else 2
